@@ -85,6 +85,12 @@ fn run_case(ctx: &Ctx, index: u64, rep: &mut Report) {
                     uid += 1;
                     let u = format!("u{}", uid);
                     (format!("{} \"{}\"", rng.s(&["PRINT", "print", "?", "P R I N T"]), u), Some(format!("{} \"{}\"", if rng.coin() { "PRINT" } else { "PRINT" }, u)))
+                } else if rng.chance(1, 6) {
+                    // a numbered line whose whole text spells an immediate-mode command is still a program line
+                    // (the symbol LIST, RUN, ...), it is stored, not executed
+                    let (s, c) = *rng.pick(&[("LIST", "LIST"), ("RUN", "RUN"), ("run", "RUN"), ("NEW", "NEW"), ("CONT", "CONT"), ("TRACE", "TRACE"),
+                        ("NOTRACE", "NOT RACE"), ("l i s t", "LIST"), ("STATS", "STATS"), ("List ", "LIST"), ("R U N", "RUN"), ("new", "NEW")]);
+                    (s.to_string(), Some(c.to_string()))
                 } else {
                     let s = toks::join(&toks::random_pieces(&mut rng, 6));
                     let c = canonical(&s);
